@@ -85,7 +85,7 @@ func deepCopyAny(v any) any {
 	return v
 }
 
-var mutationKinds = []string{"delete", "retype", "rename", "duplicate", "repoint", "nil", "extreme", "rekey", "swaptype"}
+var mutationKinds = []string{"delete", "retype", "rename", "duplicate", "repoint", "nil", "extreme", "rekey", "swaptype", "renamespace"}
 
 // applyMutation mutates node i of the tree with the given kind; variant selects among alternatives.
 func applyMutation(tree any, nodeIdx int, kind string, variant int) (desc string, ok bool) {
@@ -95,6 +95,24 @@ func applyMutation(tree any, nodeIdx int, kind string, variant int) (desc string
 		return "", false
 	}
 	n := nodes[nodeIdx%len(nodes)]
+	if kind == "renamespace" {
+		// a reference (anywhere: top-level objects, nested scopes, in-place one-of members) pointing into a namespace
+		// nobody applies
+		var nsNodes []*node
+		for _, c := range nodes {
+			if k, ok := c.key.(string); ok && k == "namespace" && c.parentMap != nil {
+				if _, isStr := c.get().(string); isStr {
+					nsNodes = append(nsNodes, c)
+				}
+			}
+		}
+		if len(nsNodes) == 0 {
+			return "", false
+		}
+		n = nsNodes[nodeIdx%len(nsNodes)]
+		n.set([]string{"other", "$.steps", " "}[variant%3])
+		return fmt.Sprintf("%s@%s", kind, n.path), true
+	}
 	if kind == "swaptype" {
 		// type confusion: a complete, well-formed description of ANOTHER type where some type stands (a list as map
 		// key, an object where an item type is expected ...); applies to type nodes only
